@@ -406,4 +406,58 @@ example : ∃ (i : TempIn ℝ Unit), i.tmin ≤ 4000 ∧
   · exact absurd ‹False› id
   · exact (tempMain_range _ _ (by norm_num)).1
 
+/-! ## outputs depend on the inputs of the update only -/
+
+/-- The model represents the coolant fractions stored in the cell before the call as the input
+`met0` of `calculate_temperature`.  For every balance function and every pair of calls that
+differ ONLY in these stored fractions, a call that returns produces the same temperature, the
+same H/He fractions and the same coolant fractions (either reset to zero on both sides, or
+the payload of the last balance evaluation on both sides): no branch leaves a stored fraction
+behind.
+
+For `calculate_ionization_state` (`ionCell`) the statement is trivial in the model — it is a
+function of the inputs that constructs all 14 fractions on every branch and has no previous
+state argument; that the C++ assigns every fraction on every branch rests on the
+correspondence run (re-used cell vs fresh sentinel-filled cell, `…:depends-on-previous-state`). -/
+theorem cell_output_independent_of_previous_state {M : Type} (bal : ℝ → ℝ → Bal ℝ M)
+    (i : TempIn ℝ M) (m' : M) (hna : (temperatureCell bal i).abort = false) :
+    let r := temperatureCell bal i
+    let r' := temperatureCell bal { i with met0 := m' }
+    r'.abort = false ∧ r.T = r'.T ∧ r.h0 = r'.h0 ∧ r.he0 = r'.he0 ∧ r.metZero = r'.metZero ∧
+      (r.metZero = false → r.met = r'.met) := by
+  unfold temperatureCell at hna ⊢
+  simp only [] at hna ⊢
+  have hpre : ∀ c a b, crPre { i with met0 := m' } c a b = crPre i c a b := by
+    intro c a b; unfold crPre; rfl
+  simp only [hpre]
+  split_ifs at hna ⊢ with h1 h2 h3
+  · simp
+  · simp
+  · -- the iteration
+    unfold tempMain
+    simp only []
+    set b := bal (crfacEff i.crfac i.crcell) with hb
+    set s : TState ℝ M := ⟨tempInit i.Told, 0.0, 0.0, 1.0, 0.0, i.met0⟩ with hs
+    set s' : TState ℝ M := ⟨tempInit i.Told, 0.0, 0.0, 1.0, 0.0, m'⟩ with hs'
+    have hsim : Sim s s' := ⟨rfl, rfl, rfl, rfl, rfl⟩
+    obtain ⟨hk, hS, hEq⟩ := tempLoop_sim b i.eps i.tmin i.maxit 0 s s' hsim
+    rcases tempLoop_inv' b i.eps i.tmin i.maxit 0 s with ⟨e1, e2⟩ | hpos
+    · -- no body ran on either side: coolants reset on both
+      have e1' : (tempLoop b i.eps i.tmin i.maxit 0 s').1 = s' := by
+        have := tempLoop_inv' b i.eps i.tmin i.maxit 0 s'
+        rcases this with ⟨a, _⟩ | a
+        · exact a
+        · rw [← hk, e2] at a; exact absurd a (lt_irrefl 0)
+      have z := tempFinish_zero_h0 i s 0 rfl
+      have z' := tempFinish_zero_h0 { i with met0 := m' } s' 0 rfl
+      rw [← hk, e1, e2, e1']
+      refine ⟨rfl, rfl, ?_, ?_, ?_, ?_⟩
+      · unfold tempFinish; rfl
+      · unfold tempFinish; rfl
+      · rw [z, z']
+      · intro hz; rw [z] at hz; exact absurd hz (by simp)
+    · have heq := hEq hpos
+      rw [← hk, ← heq]
+      refine ⟨rfl, rfl, ?_, ?_, ?_, ?_⟩ <;> (unfold tempFinish; first | rfl | (intro _; rfl))
+
 end CMacVerif.IonBalance
